@@ -258,34 +258,46 @@ func diffSnap(a, b string) string {
 }
 
 type Output struct {
-	Harness     string                 `json:"harness"`
-	Args        []int64                `json:"args"`
-	Paths       int64                  `json:"paths"`
-	Outcomes    map[string]int64       `json:"outcomes"`
-	Unsupported map[string]int64       `json:"unsupported"`
-	AssumeCuts  map[string]int64       `json:"assume_cuts"`
-	Reach       map[string]int64       `json:"reach"`
-	Violations  []*Violation           `json:"violations"`
-	ViolCounts  map[string]int64       `json:"violation_counts"`
-	Decisions   int64                  `json:"decisions"`
-	MaxDecisions int                   `json:"max_decisions"`
-	Steps       int64                  `json:"steps"`
-	AssertsSolver int64                `json:"obligations_solver"`
-	AssertsConcrete int64              `json:"obligations_concrete"`
-	Sat         int64                  `json:"queries_sat"`
-	Unsat       int64                  `json:"queries_unsat"`
-	Unknown     int64                  `json:"queries_unknown"`
-	SolverTime  float64                `json:"solver_time_s"`
-	Wall        float64                `json:"wall_s"`
-	Complete    bool                   `json:"complete"`
-	StopReason  string                 `json:"stop_reason,omitempty"`
-	Funcs       map[string]int64       `json:"functions_encoded"`
-	Samples     []map[string]interface{} `json:"samples"`
-	Witnesses   []map[string]interface{} `json:"witnesses"`
-	Workers     int                    `json:"workers"`
-	Solver      string                 `json:"solver"`
-	FastOne     int64                  `json:"domain_decided_one_sided"`
-	FastTwo     int64                  `json:"domain_decided_two_sided"`
+	Harness         string                   `json:"harness"`
+	Args            []int64                  `json:"args"`
+	Paths           int64                    `json:"paths"`
+	Outcomes        map[string]int64         `json:"outcomes"`
+	Unsupported     map[string]int64         `json:"unsupported"`
+	AssumeCuts      map[string]int64         `json:"assume_cuts"`
+	Reach           map[string]int64         `json:"reach"`
+	Violations      []*Violation             `json:"violations"`
+	ViolCounts      map[string]int64         `json:"violation_counts"`
+	Decisions       int64                    `json:"decisions"`
+	MaxDecisions    int                      `json:"max_decisions"`
+	Steps           int64                    `json:"steps"`
+	AssertsSolver   int64                    `json:"obligations_solver"`
+	AssertsConcrete int64                    `json:"obligations_concrete"`
+	Sat             int64                    `json:"queries_sat"`
+	Unsat           int64                    `json:"queries_unsat"`
+	Unknown         int64                    `json:"queries_unknown"`
+	SolverTime      float64                  `json:"solver_time_s"`
+	Wall            float64                  `json:"wall_s"`
+	Complete        bool                     `json:"complete"`
+	StopReason      string                   `json:"stop_reason,omitempty"`
+	Funcs           map[string]int64         `json:"functions_encoded"`
+	Samples         []map[string]interface{} `json:"samples"`
+	Witnesses       []map[string]interface{} `json:"witnesses"`
+	Workers         int                      `json:"workers"`
+	Solver          string                   `json:"solver"`
+	FastOne         int64                    `json:"domain_decided_one_sided"`
+	FastTwo         int64                    `json:"domain_decided_two_sided"`
+}
+
+type RunSpec struct {
+	Harness      string   `json:"harness"`
+	Args         []int64  `json:"args"`
+	Cut          []string `json:"cut"`
+	MaxPaths     int64    `json:"maxpaths"`
+	Timeout      string   `json:"timeout"`
+	Budget       int      `json:"budget"`
+	PanicsCut    bool     `json:"panics_cut"`
+	NoFast       bool     `json:"nofast"`
+	WitnessEvery int64    `json:"witness_every"`
 }
 
 func main() {
@@ -295,7 +307,7 @@ func main() {
 	argsS := flag.String("args", "", "comma separated integer arguments")
 	workers := flag.Int("workers", 16, "number of workers")
 	maxPaths := flag.Int64("maxpaths", 0, "stop after this many paths (0 = unlimited)")
-	timeout := flag.Duration("timeout", 0, "stop after this duration")
+	timeout := flag.String("timeout", "", "stop after this duration")
 	budget := flag.Int("budget", 2000000, "per-path step budget (unwinding assertion)")
 	cut := flag.String("cut", "", "comma separated function names whose entry ends the path (assumption)")
 	out := flag.String("out", "", "output JSON file")
@@ -304,9 +316,9 @@ func main() {
 	listFuncs := flag.Bool("list", false, "list harness functions")
 	panicsCut := flag.Bool("panics-cut", false, "an uncaught panic of the code under test ends the path as an assumption (for properties other than C03/C04)")
 	noFast := flag.Bool("nofast", false, "disable the per-byte domain pre-check (every feasibility question goes to the solver)")
+	batch := flag.String("batch", "", "JSON file with a list of runs (harness, args, ...); output is a JSON list")
 	flag.Parse()
 
-	t0 := time.Now()
 	sh := load(*repo, *overlay)
 	if *listFuncs {
 		for name := range sh.mainPkg.Members {
@@ -316,40 +328,38 @@ func main() {
 		}
 		return
 	}
-	hf := sh.mainPkg.Func(*harness)
-	if hf == nil {
-		fatal("harness %s not found", *harness)
-	}
-	var args []int64
-	if *argsS != "" {
-		for _, a := range strings.Split(*argsS, ",") {
-			v, err := strconv.ParseInt(strings.TrimSpace(a), 10, 64)
-			if err != nil {
-				fatal("bad arg %q", a)
+	var specs []RunSpec
+	if *batch != "" {
+		data, err := os.ReadFile(*batch)
+		if err != nil {
+			fatal("%v", err)
+		}
+		if err := json.Unmarshal(data, &specs); err != nil {
+			fatal("batch file: %v", err)
+		}
+	} else {
+		var args []int64
+		if *argsS != "" {
+			for _, a := range strings.Split(*argsS, ",") {
+				v, err := strconv.ParseInt(strings.TrimSpace(a), 10, 64)
+				if err != nil {
+					fatal("bad arg %q", a)
+				}
+				args = append(args, v)
 			}
-			args = append(args, v)
 		}
-	}
-	if len(args) != len(hf.Params) {
-		fatal("harness %s takes %d arguments, %d given", *harness, len(hf.Params), len(args))
-	}
-	cutAt := map[string]bool{}
-	for _, c := range strings.Split(*cut, ",") {
-		if c != "" {
-			cutAt[c] = true
+		var cuts []string
+		for _, c := range strings.Split(*cut, ",") {
+			if c != "" {
+				cuts = append(cuts, c)
+			}
 		}
-	}
-	ex := &Explorer{sh: sh, harness: hf, args: args, cutAt: cutAt, budget: *budget, maxPaths: *maxPaths,
-		outcomes: map[string]int64{}, unsupported: map[string]int64{}, reach: map[string]int64{}, assumeCuts: map[string]int64{},
-		violations: map[string]*Violation{}, violCount: map[string]int64{}, witnessEvery: *witnessEvery, funcs: map[string]int64{}, noFast: *noFast, panicsCut: *panicsCut}
-	ex.cond = sync.NewCond(&ex.mu)
-	if *timeout > 0 {
-		ex.deadline = time.Now().Add(*timeout)
+		specs = []RunSpec{{Harness: *harness, Args: args, Cut: cuts, MaxPaths: *maxPaths, Timeout: *timeout, Budget: *budget,
+			PanicsCut: *panicsCut, NoFast: *noFast, WitnessEvery: *witnessEvery}}
 	}
 	solverArgv := strings.Fields(*solverS)
-	ex.queue = append(ex.queue, WorkItem{})
-	var wg sync.WaitGroup
 	ws := make([]*Worker, *workers)
+	var wg sync.WaitGroup
 	var initErr error
 	var initMu sync.Mutex
 	for i := 0; i < *workers; i++ {
@@ -362,56 +372,26 @@ func main() {
 				initMu.Lock()
 				initErr = err
 				initMu.Unlock()
-				ex.mu.Lock()
-				ex.stop = true
-				ex.stopReason = "init failed"
-				ex.cond.Broadcast()
-				ex.mu.Unlock()
-				return
 			}
-			w.ex = ex
-			w.funcsExecuted = map[*ssa.Function]int64{}
-			w.loop()
 		}(i)
 	}
 	wg.Wait()
 	if initErr != nil {
 		fatal("%v", initErr)
 	}
-	o := Output{Harness: *harness, Args: args, Paths: ex.paths, Outcomes: ex.outcomes, Unsupported: ex.unsupported,
-		AssumeCuts: ex.assumeCuts, Reach: ex.reach, ViolCounts: ex.violCount, Decisions: ex.decisionsTotal, MaxDecisions: ex.maxDecisions,
-		Steps: ex.stepsTotal, AssertsSolver: ex.assertsSolver, AssertsConcrete: ex.assertsConcrete,
-		Complete: !ex.stop, StopReason: ex.stopReason, Samples: ex.samples, Workers: *workers, Solver: *solverS, FastOne: ex.fastOne, FastTwo: ex.fastTwo}
-	for _, k := range func() []string {
-		ks := []string{}
-		for k := range ex.violations {
-			ks = append(ks, k)
-		}
-		sort.Strings(ks)
-		return ks
-	}() {
-		o.Violations = append(o.Violations, ex.violations[k])
+	var outs []Output
+	for _, sp := range specs {
+		outs = append(outs, runOne(sh, ws, sp, *solverS))
 	}
-	funcs := map[string]int64{}
 	for _, w := range ws {
-		if w == nil {
-			continue
-		}
-		o.Sat += int64(w.solver.nSat)
-		o.Unsat += int64(w.solver.nUnsat)
-		o.Unknown += int64(w.solver.nUnknown)
-		o.SolverTime += w.solver.solveTime.Seconds()
-		for f, n := range w.funcsExecuted {
-			funcs[f.String()] += n
-		}
 		w.solver.Close()
 	}
-	o.Funcs = funcs
-	for _, wt := range ex.witnesses {
-		o.Witnesses = append(o.Witnesses, map[string]interface{}{"nondet": wt.Witness, "digest": wt.Digest})
+	var data []byte
+	if *batch != "" {
+		data, _ = json.MarshalIndent(outs, "", " ")
+	} else {
+		data, _ = json.MarshalIndent(outs[0], "", " ")
 	}
-	o.Wall = time.Since(t0).Seconds()
-	data, _ := json.MarshalIndent(o, "", " ")
 	if *out != "" {
 		if err := os.WriteFile(*out, data, 0o644); err != nil {
 			fatal("%v", err)
@@ -420,7 +400,103 @@ func main() {
 		os.Stdout.Write(data)
 		fmt.Println()
 	}
-	fmt.Fprintf(os.Stderr, "gosym: %s%v paths=%d outcomes=%v violations=%d unsupported=%d sat=%d unsat=%d solver=%.1fs wall=%.1fs complete=%v\n",
-		*harness, args, ex.paths, ex.outcomes, len(ex.violations), len(ex.unsupported), o.Sat, o.Unsat, o.SolverTime, o.Wall, o.Complete)
 	_ = types.Typ
+}
+
+// resetTerms gives the worker a fresh term store and solver process (variable
+// indices restart at 0 for every run).
+func (w *Worker) resetTerms() {
+	argv := w.solver.argv
+	w.solver.Close()
+	w.ts = NewTermStore()
+	w.solver = NewSolver(w.ts, argv)
+}
+
+func runOne(sh *Shared, ws []*Worker, sp RunSpec, solverS string) Output {
+	t0 := time.Now()
+	hf := sh.mainPkg.Func(sp.Harness)
+	if hf == nil {
+		fatal("harness %s not found", sp.Harness)
+	}
+	if len(sp.Args) != len(hf.Params) {
+		fatal("harness %s takes %d arguments, %d given", sp.Harness, len(hf.Params), len(sp.Args))
+	}
+	cutAt := map[string]bool{}
+	for _, c := range sp.Cut {
+		cutAt[c] = true
+	}
+	if sp.Budget == 0 {
+		sp.Budget = 2000000
+	}
+	if sp.WitnessEvery == 0 {
+		sp.WitnessEvery = 50
+	}
+	ex := &Explorer{sh: sh, harness: hf, args: sp.Args, cutAt: cutAt, budget: sp.Budget, maxPaths: sp.MaxPaths,
+		outcomes: map[string]int64{}, unsupported: map[string]int64{}, reach: map[string]int64{}, assumeCuts: map[string]int64{},
+		violations: map[string]*Violation{}, violCount: map[string]int64{}, witnessEvery: sp.WitnessEvery, funcs: map[string]int64{},
+		noFast: sp.NoFast, panicsCut: sp.PanicsCut}
+	ex.cond = sync.NewCond(&ex.mu)
+	if sp.Timeout != "" {
+		d, err := time.ParseDuration(sp.Timeout)
+		if err != nil {
+			fatal("bad timeout %q", sp.Timeout)
+		}
+		ex.deadline = time.Now().Add(d)
+	}
+	ex.queue = append(ex.queue, WorkItem{})
+	type sstat struct {
+		sat, unsat, unknown int
+		t                   time.Duration
+	}
+	before := make([]sstat, len(ws))
+	for _, w := range ws {
+		w.solverBase.sat += w.solver.nSat
+		w.solverBase.unsat += w.solver.nUnsat
+		w.solverBase.unknown += w.solver.nUnknown
+		w.solverBase.t += w.solver.solveTime
+		w.solver.nSat, w.solver.nUnsat, w.solver.nUnknown, w.solver.solveTime = 0, 0, 0, 0
+	}
+	var wg sync.WaitGroup
+	for i, w := range ws {
+		before[i] = sstat{w.solver.nSat, w.solver.nUnsat, w.solver.nUnknown, w.solver.solveTime}
+		w.ex = ex
+		w.funcsExecuted = map[*ssa.Function]int64{}
+		w.resetTerms()
+		wg.Add(1)
+		go func(w *Worker) {
+			defer wg.Done()
+			w.loop()
+		}(w)
+	}
+	wg.Wait()
+	o := Output{Harness: sp.Harness, Args: sp.Args, Paths: ex.paths, Outcomes: ex.outcomes, Unsupported: ex.unsupported,
+		AssumeCuts: ex.assumeCuts, Reach: ex.reach, ViolCounts: ex.violCount, Decisions: ex.decisionsTotal, MaxDecisions: ex.maxDecisions,
+		Steps: ex.stepsTotal, AssertsSolver: ex.assertsSolver, AssertsConcrete: ex.assertsConcrete,
+		Complete: !ex.stop, StopReason: ex.stopReason, Samples: ex.samples, Workers: len(ws), Solver: solverS, FastOne: ex.fastOne, FastTwo: ex.fastTwo}
+	var sigs []string
+	for k := range ex.violations {
+		sigs = append(sigs, k)
+	}
+	sort.Strings(sigs)
+	for _, k := range sigs {
+		o.Violations = append(o.Violations, ex.violations[k])
+	}
+	funcs := map[string]int64{}
+	for i, w := range ws {
+		o.Sat += int64(w.solver.nSat - before[i].sat)
+		o.Unsat += int64(w.solver.nUnsat - before[i].unsat)
+		o.Unknown += int64(w.solver.nUnknown - before[i].unknown)
+		o.SolverTime += (w.solver.solveTime - before[i].t).Seconds()
+		for f, n := range w.funcsExecuted {
+			funcs[f.String()] += n
+		}
+	}
+	o.Funcs = funcs
+	for _, wt := range ex.witnesses {
+		o.Witnesses = append(o.Witnesses, map[string]interface{}{"nondet": wt.Witness, "digest": wt.Digest})
+	}
+	o.Wall = time.Since(t0).Seconds()
+	fmt.Fprintf(os.Stderr, "gosym: %s%v paths=%d outcomes=%v violations=%d unsupported=%d sat=%d unsat=%d solver=%.1fs wall=%.1fs complete=%v\n",
+		sp.Harness, sp.Args, ex.paths, ex.outcomes, len(ex.violations), len(ex.unsupported), o.Sat, o.Unsat, o.SolverTime, o.Wall, o.Complete)
+	return o
 }
